@@ -23,7 +23,7 @@ From GL Require Import lib.IMapBase.
 Import ListNotations.
 Open Scope Z_scope.
 
-Definition id := nat.
+Notation id := nat (only parsing).   (* node ids: indices into the heap *)
 
 Record node := mkNode {
   n_st : nstate; n_prev : option id; n_next : option id;
